@@ -66,6 +66,7 @@ const (
 	pkgHTTP1 = "example.com/m/ext/v1/http"
 	pkgHTTP2 = "example.com/m/other/http"
 	pkgHTTP3 = "example.com/m/third/http"
+	pkgMock  = "example.com/m/third/mock" // a user package with the name the testify template wants for testify's own
 )
 
 var catalogue = []namedDecl{
@@ -85,6 +86,7 @@ var catalogue = []namedDecl{
 	{pkgHTTP1, "http", "Handler", false, true, false, 0, true, true, "type Handler interface{ Serve(r Request) }"},
 	{pkgHTTP2, "http", "Client", false, false, false, 0, false, true, "type Client struct{ Name string }"},
 	{pkgHTTP3, "http", "Server", false, false, false, 0, false, true, "type Server struct{ Port int }"},
+	{pkgMock, "mock", "Thing", false, false, false, 0, false, true, "type Thing struct{ N int }"},
 	{"io", "io", "Reader", false, true, false, 0, true, true, ""},
 	{"io", "io", "Writer", false, true, false, 0, true, true, ""},
 	{"context", "context", "Context", false, true, false, 0, true, true, ""},
